@@ -195,3 +195,26 @@ Fixpoint skip_failed_writes (chunks : list (list nat * bool)) : list nat :=
   | [] => []
   | (d, failed) :: r => (if failed then [] else d) ++ skip_failed_writes r
   end.
+
+(* -------------------------------------------------------------------------------------------------
+   The copy loop and the stats backend: a direction copies m chunks; thread 1 is the stats backend, which may answer late or never.
+     report_every None      = the code: no cloud-control call inside the loop (reports come from the 30 s ticker and from Close)
+     report_every (Some b)  = a synchronous reportTrafficStats() after every b-th chunk (seeded C02-20): the loop goes on only
+                              once the backend has answered *)
+Inductive sthread := SCopy (m : nat) | SCopyDone | SBackend.
+Record sshared := { s_answered : bool; s_copied : nat }.
+Definition sstep (report_every : option nat) (t : sthread) (sh : sshared) : sthread * sshared :=
+  match t with
+  | SBackend => (SBackend, {| s_answered := true; s_copied := s_copied sh |})
+  | SCopy (S m) =>
+      match report_every with
+      | Some b => if andb (Nat.ltb 0 (s_copied sh)) (andb (Nat.eqb (Nat.modulo (s_copied sh) b) 0) (negb (s_answered sh)))
+                  then (t, sh)                                                   (* parked in the cloud-control call *)
+                  else (SCopy m, {| s_answered := s_answered sh; s_copied := S (s_copied sh) |})
+      | None => (SCopy m, {| s_answered := s_answered sh; s_copied := S (s_copied sh) |})
+      end
+  | SCopy O => (SCopyDone, sh)
+  | SCopyDone => (t, sh)
+  end.
+Definition stats_run (report_every : option nat) (m : nat) (sched : list nat) : sshared * list sthread :=
+  run _ _ (sstep report_every) ({| s_answered := false; s_copied := 0 |}, [SCopy m; SBackend]) sched.
